@@ -29,6 +29,15 @@ Notation geom := (@geom A).
 Notation space := (@space A).
 Notation qpt := (@qpt A).
 
+(* Which indexing the current source uses (regenerated from the source by translators/fmm_indexing.py into
+   gen/FmmIndexing.v; the theorems are stated for every version):
+     v_transform_by_position  = the curl / RWG / div transforms address point slot nq*<position in support>+q
+                                (pinned tree) instead of nq*<element>+q
+     v_msp_store_by_element   = map_space_to_points_impl stores its output at [elem*nlocal:...] (pinned tree)
+                                instead of [position*nlocal:...] *)
+Record fmm_version : Type := mk_version { v_transform_by_position : bool; v_msp_store_by_element : bool }.
+Variable ver : fmm_version.
+
 Definition pvec : Type := nat -> qpt -> A.
 
 (* (position in support_elements, element) *)
@@ -36,7 +45,8 @@ Definition enum (l : list nat) : list (nat * nat) := combine (seq 0 (length l)) 
 
 (* which point-cloud slot an element at position pos writes to *)
 Definition slot_elem (pos e : nat) : nat := e.     (* map_space_to_points_impl: arange(elem*npts, ...) *)
-Definition slot_pos (pos e : nat) : nat := pos.    (* curl / rwg / div transforms: nq*element_index + point_index *)
+(* curl / rwg / div transforms: iind = nq*element_index + point_index (position) resp. nq*element + point_index *)
+Definition slot_pos (pos e : nat) : nat := if v_transform_by_position ver then pos else e.
 
 (* A transformation matrix (coo, rows = points, columns = localised dofs 3*pos+i) composed with
    map_to_localised_space (value local_multipliers[e,i], column local2global[e,i]); dof_transformation = identity.
@@ -58,7 +68,8 @@ Definition from_points (slot : nat -> nat -> nat) (s : space) (supp : list nat) 
 
 (* map_space_to_points_impl writes its three output arrays at [elem*nlocal : (elem+1)*nlocal] although they have
    length nlocal*len(support): an element number >= len(support) makes the slice empty and the assignment raise *)
-Definition msp_ok (supp : list nat) : bool := forallb (fun e => Nat.ltb e (length supp)) supp.
+Definition msp_ok (supp : list nat) : bool :=
+  if v_msp_store_by_element ver then forallb (fun e => Nat.ltb e (length supp)) supp else true.
 
 (* matrix entries *)
 Definition msp_val (g : geom) (s : space) (e i : nat) (q : qpt) : A :=
